@@ -279,6 +279,7 @@ drive_aiger_stream!(drive_aag_stream, ascii, u8, true);
 drive_aiger_stream!(drive_aig_stream, binary, u32, false);
 
 pub fn run(f: &Fmt, input: &[u8], sched: Sched) -> Outcome {
+    set_case_bytes("C05 the parser terminates with bounded resources", f.name, input, sched);
     let (src, meter) = Src::new(input, sched);
     let mark = mem_mark();
     let mut items = vec![];
@@ -681,9 +682,6 @@ pub fn suite(fname: &str, prop: &str, tier: &str, seed: u64) -> Report {
         if inp.iter().any(|&b| b != b' ' && b != b'\n') {
             rep.nontrivial += 1;
         }
-        let mut ra = vec![hex(inp)];
-        ra.extend(ONE_SHOT.args());
-        set_case("C05 the parser terminates with bounded resources", &format!("{} input {:?}", f.name, show(inp)), &ra);
         check_input(f, inp, prop, &mut rep);
     }
     rep
